@@ -111,6 +111,13 @@ func (x *Exec) interceptIter(st *State, name string, args []*Term) ([]Outcome, b
 			return ret(c.Sel(cur, 1))
 		}
 		return ret(c.Select(c.Sel(cur, 0), args[1]))
+	case "GhostOn":
+		// guards the ghost statements injected into real function bodies; a harness with `option noghost`
+		// (bounded scripts that only run the code) executes the functions without them
+		if x.noGhost {
+			return ret(c.False)
+		}
+		return ret(c.True)
 	case "Assume":
 		if !x.assume(st, args[0]) {
 			return nil, true
